@@ -139,11 +139,15 @@ def bgLoop : Nat → List Tok → PB → List Tok → Option (List Tok)
       else if boxKws.contains h then
         match pb with
         | .unset => if h == S "padding-box" then bgLoop fuel (acc ++ [t']) (.at acc.length) r else bgLoop fuel (acc ++ [t']) pb r
-        | .at k => if h == S "border-box" then bgLoop fuel (acc.eraseIdx k) .stale r else bgLoop fuel (acc ++ [t']) pb r
+        | .at k => if h == S "border-box" then bgLoop fuel (acc.eraseIdx k) .unset r else bgLoop fuel (acc ++ [t']) pb r
         | .stale => if h == S "border-box" then none else bgLoop fuel (acc ++ [t']) pb r
       else position ()
     else if t'.tt == .hash && t'.data == S "#0000" then bgLoop fuel acc pb r
     else if t'.tt == .function && t'.data == S "var(" then bgLoop fuel (acc ++ [t']) pb r
+    else if isSlash t' then
+      -- the background-size behind the slash was minified by the first loop: skipped (d2ef36a)
+      let sz := (r.takeWhile bgSizeTok).take 2
+      bgLoop fuel (acc ++ t' :: sz) pb (r.drop sz.length)
     else position ()
 
 /-- one layer of `background` (`none` = outside the model, see `PB.stale`) -/
